@@ -401,7 +401,7 @@ static void run_case(vmc::Ctx& ctx, const std::string& cs)
   //   (e.g. a truncated last segment); oddspan / evenspan
   const std::string family = (c.geom == "blk" || c.geom == "gen") ? "generic" : "cylindrical";
   const std::string comp = c.ge ? "ge" : (!compressed ? "none" : (single ? "mixed" : (c.span % 2 ? "oddspan" : "evenspan")));
-  run.keybase = "family=" + family + ";comp=" + comp + ";sr=" + std::to_string(c.sr);
+  run.keybase = "family=" + family + ";comp=" + comp + ";sr=" + std::to_string(c.sr) + (c.hist ? ";derived=1" : "");
   if (vm > 1) ctx.count("configs_with_view_mashing");
   if (compressed) ctx.count("configs_with_axial_compression");
   if (tm > 0) ctx.count("configs_tof");
@@ -418,7 +418,7 @@ static void run_case(vmc::Ctx& ctx, const std::string& cs)
             ctx.count("configs_det_pairs_skipped_after_ringpair_violation");
             return;
           }
-        run.keybase = "family=" + family + ";comp=" + comp + ";vm=" + (vm > 1 ? "m" : "1") + ";tof=" + (tm == 0 ? "0" : (tm == 1 ? "1" : "m"));
+        run.keybase = "family=" + family + ";comp=" + comp + ";vm=" + (vm > 1 ? "m" : "1") + ";tof=" + (tm == 0 ? "0" : (tm == 1 ? "1" : "m")) + (c.hist ? ";derived=1" : "");
         if (auto* p = dynamic_cast<const ProjDataInfoCylindricalNoArcCorr*>(pdi.get())) check_det_pairs(run, *p);
         else if (auto* g = dynamic_cast<const ProjDataInfoGenericNoArcCorr*>(pdi.get())) check_det_pairs(run, *g);
         else ctx.observe("no detector-pair API for " + cs);
@@ -463,6 +463,8 @@ static void add_samplings(std::vector<std::string>& out, Cfg base, bool full_pro
                 Cfg c = base;
                 c.span = ax.span; c.md = ax.md; c.ge = ax.ge; c.vm = vm; c.nt = nt; c.tm = tm; c.sr = sr[0]; c.smin = sr[1]; c.smax = sr[2];
                 out.push_back(c.str());
+                // the same sampling reached from an already used object through clone + setters (only where something is derived)
+                if (!det && (vm > 1 || nt != nts[0] || tm > 1 || sr[0])) { c.hist = 1; out.push_back(c.str()); }
               }
     }
 }
